@@ -43,20 +43,23 @@ pub struct Built3 {
 }
 
 fn build_world(name: &str) -> Built3 {
-    let (kind, adaptive) = match name {
-        "c17-spl" => (Kind::Spl, [false, false, true]),
-        "c17-t22" => (Kind::T22, [false, true, false]),
-        "c17-tfee" => (Kind::TFee, [false, false, false]),
+    let (kind, adaptive, te) = match name {
+        "c17-spl" => (Kind::Spl, [false, false, true], None),
+        "c17-t22" => (Kind::T22, [false, true, false], None),
+        "c17-tfee" => (Kind::TFee, [false, false, false], None),
+        // pool P13 is an adaptive-fee pool that opens for trading 40 s after the start: until the clock op (+45 s) has run, every
+        // route through it has a leg that fails on its own ("fails ... if either leg would fail on its own"), afterwards not
+        "c17-te" => (Kind::Spl, [false, false, true], Some(40)),
         _ => panic!("unknown world {name}"),
     };
-    let (l, w) = w3::build(kind, name, adaptive);
+    let (l, w) = w3::build(kind, name, adaptive, te);
     let roots = w3::roots(&w).into_iter().map(|(n, seq)| (n.to_string(), w3::apply_all3(&l, &w, &seq))).collect();
     Built3 { w, roots }
 }
 
 /// (world, share of the remaining wall budget). `WPV_C17_WORLDS=a,b` restricts the run (debugging / mutant runs only).
 fn world_names(thorough: bool) -> Vec<(&'static str, f64)> {
-    let all: Vec<(&'static str, f64)> = if thorough { vec![("c17-spl", 0.5), ("c17-tfee", 0.6), ("c17-t22", 1.0)] } else { vec![("c17-spl", 1.0)] };
+    let all: Vec<(&'static str, f64)> = if thorough { vec![("c17-spl", 0.4), ("c17-te", 0.25), ("c17-tfee", 0.6), ("c17-t22", 1.0)] } else { vec![("c17-spl", 0.6), ("c17-te", 1.0)] };
     match std::env::var("WPV_C17_WORLDS") {
         Ok(sel) => [("c17-spl", 0.5), ("c17-tfee", 0.6), ("c17-t22", 1.0)].into_iter().filter(|(n, _)| sel.split(',').any(|x| x == *n)).collect(),
         Err(_) => all,
